@@ -115,10 +115,18 @@ Optimize(t, e) ==
     [] t.k = "lit"   -> IF t.ls = {} THEN TStr ELSE t
     [] OTHER -> t                                        \* atoms, pseudo types, ptr (never followed)
 
+\* members behind Optional and inside nested unions take part in the simplification (flatten of _optimize_union):
+\* FlatOpt(S) = [ms: the members found, opt: an Optional was met on the way]
+RECURSIVE FlatOpt(_)
+FlatOpt(S) ==
+  LET parts == {IF t.k = "opt" THEN [ms |-> FlatOpt({t.xs[1]}).ms, opt |-> TRUE]
+                ELSE IF t.k = "union" THEN FlatOpt(Members(t))
+                ELSE [ms |-> {t}, opt |-> FALSE] : t \in S}
+  IN [ms |-> UNION {p.ms : p \in parts}, opt |-> \E p \in parts : p.opt]
 OptUnion(u, e) ==
-  LET ms0   == Members(u)
-      hasOptMember == \E t \in ms0 : t.k = "opt"
-      ms    == {IF t.k = "opt" THEN t.xs[1] ELSE t : t \in ms0}
+  LET fo    == FlatOpt(Members(u))
+      hasOptMember == fo.opt
+      ms    == fo.ms
       objs  == {t \in ms : t.k = "obj"}
       strs  == {t \in ms : (t.k = "pseudo" /\ t.n \in ToSet(e.reg)) \/ t = TStr}
       lists == {t \in ms : t.k = "list"}
